@@ -214,6 +214,22 @@ func setupHostsFile(c *Ctx) {
 	}
 }
 
+// writeHostsFile puts content where the daemon looks for the hosts file: for every other content (by its length) the
+// path is a SYMBOLIC LINK to the real file, as /etc/hosts is on firmwares whose /etc lives on a read-only image
+// (Asuswrt-Merlin: /etc/hosts -> /tmp/etc/hosts); otherwise a regular file.
+func writeHostsFile(content []byte) error {
+	real := hostsPath + ".real"
+	_ = os.Remove(hostsPath)
+	_ = os.Remove(real)
+	if len(content)%2 == 1 {
+		if err := os.WriteFile(real, content, 0644); err != nil {
+			return err
+		}
+		return os.Symlink(real, hostsPath)
+	}
+	return os.WriteFile(hostsPath, content, 0644)
+}
+
 // runResolve: `resolve …` = one query on a fresh Proxy; `resolveseq … <p1>,<p2>,…` = the queries
 // in order on ONE Proxy with ONE discovery.Hosts (tables read once, then reused: a lookup must not
 // disturb what a later lookup of the same table returns); results joined by '|', up = upstream
@@ -265,7 +281,7 @@ func runResolve(c *Ctx, f []string) string {
 	p := proxy.Proxy{Upstream: up, BogusPriv: f[1] == "b=1"}
 	if lpresent {
 		setupHostsFile(c)
-		if err := os.WriteFile(hostsPath, []byte(renderHosts(lines)), 0644); err != nil {
+		if err := writeHostsFile([]byte(renderHosts(lines))); err != nil {
 			return "ERR " + err.Error()
 		}
 		p.LocalResolver = discovery.Resolver{&discovery.Hosts{}}
